@@ -35,7 +35,7 @@ func (w *verifWriter) Write(p []byte) (int, error) {
 		w.lastN, w.lastErr = len(p), nil
 		return len(p), nil
 	}
-	n := vRange(0, len(p))
+	n := verifRange(0, len(p))
 	w.accepted = append(w.accepted, p[:n]...)
 	var err error
 	if n < len(p) {
@@ -64,7 +64,7 @@ func verifBytesEq(a, b []byte) bool {
 // verifData returns a fresh symbolic write argument of 0..maxLen bytes and an
 // independent copy (to detect wrappers that modify the caller's buffer).
 func verifData(maxLen int) ([]byte, []byte) {
-	d := vBytes(vRange(0, maxLen))
+	d := vBytes(verifRange(0, maxLen))
 	return d, append([]byte(nil), d...)
 }
 
@@ -73,11 +73,11 @@ func verifData(maxLen int) ([]byte, []byte) {
 func VerifC47Cutoff() {
 	maxWrites := vParam("writes", 3)
 	maxLen := vParam("len", 3)
-	n := vRange(0, vParam("cutoff", 4))
+	n := verifRange(0, vParam("cutoff", 4))
 	down := &verifWriter{}
 	w := NewCutoffWriter(down, uint(n))
 	var reported []byte // bytes the cutoff writer reported as written
-	writes := vRange(1, maxWrites)
+	writes := verifRange(1, maxWrites)
 	for i := 0; i < writes; i++ {
 		data, orig := verifData(maxLen)
 		callsBefore := down.calls
@@ -138,7 +138,7 @@ func VerifC47Hashed() {
 	down := &verifWriter{}
 	h := &verifHasher{}
 	w := NewHashedWriter(down, h)
-	writes := vRange(1, maxWrites)
+	writes := verifRange(1, maxWrites)
 	for i := 0; i < writes; i++ {
 		data, orig := verifData(maxLen)
 		got, err := w.Write(data)
@@ -164,7 +164,7 @@ func VerifC47Valve() {
 	} else {
 		w = NewValveWriter(down)
 	}
-	writes := vRange(1, maxWrites)
+	writes := verifRange(1, maxWrites)
 	for i := 0; i < writes; i++ {
 		if !shut && vBool() {
 			w.Shut()
@@ -222,7 +222,7 @@ func verifPickErr() error {
 }
 
 func VerifC47MultiCloser() {
-	count := vRange(0, vParam("closers", 3))
+	count := verifRange(0, vParam("closers", 3))
 	var order []int
 	items := make([]*verifCloser, count)
 	closers := make([]io.Closer, count)
@@ -250,7 +250,7 @@ func VerifC47MultiCloser() {
 }
 
 func VerifC47MultiFlusher() {
-	count := vRange(0, vParam("closers", 3))
+	count := verifRange(0, vParam("closers", 3))
 	var order []int
 	items := make([]*verifCloser, count)
 	flushers := make([]Flusher, count)
@@ -296,7 +296,7 @@ func VerifC47Audit() {
 	audits := 0
 	var last uint64
 	w := NewAuditWriter(down, func(n uint64) { total += n; audits++; last = n })
-	writes := vRange(1, maxWrites)
+	writes := verifRange(1, maxWrites)
 	for i := 0; i < writes; i++ {
 		data, orig := verifData(maxLen)
 		got, err := w.Write(data)
@@ -313,15 +313,15 @@ func VerifC47Audit() {
 func VerifC47Preempt() {
 	maxWrites := vParam("pwrites", 4)
 	maxLen := vParam("len", 3)
-	interval := vRange(0, vParam("interval", 2))
+	interval := verifRange(0, vParam("interval", 2))
 	down := &verifWriter{}
 	if vBool() {
 		down.reliable = true
 	}
 	cancelled := make(chan struct{})
 	w := NewPreemptableWriter(down, cancelled, uint(interval))
-	writes := vRange(1, maxWrites)
-	cancelAt := vRange(0, writes) // cancel before write #cancelAt (== writes: never)
+	writes := verifRange(1, maxWrites)
+	cancelAt := verifRange(0, writes) // cancel before write #cancelAt (== writes: never)
 	isCancelled := false
 	afterCancel := 0 // writes that reached downstream after cancellation
 	preempted := false
@@ -363,26 +363,61 @@ func VerifC47Preempt() {
 
 // ---------------------------------------------------------------- line splitter
 
-func VerifC47Lines() {
-	maxWrites := vParam("writes", 3)
-	maxLen := vParam("len", 3)
-	var got []string
-	p := &LineProcessor{Callback: func(l string) { got = append(got, l) }}
-	limit := -1
+// verifSplit is the model: it consumes data after the pending fragment and
+// returns the completed lines (terminator "\n" or "\r\n" removed) and the new
+// pending fragment.
+func verifSplit(pending, data []byte) ([][]byte, []byte) {
+	var lines [][]byte
+	cur := append([]byte(nil), pending...)
+	for _, b := range data {
+		if b != '\n' {
+			cur = append(cur, b)
+			continue
+		}
+		line := cur
+		if len(line) > 0 && line[len(line)-1] == '\r' {
+			vCover("lines-cr")
+			line = line[:len(line)-1]
+		}
+		lines = append(lines, line)
+		cur = nil
+	}
+	return lines, cur
+}
+
+func verifLinesEq(got []string, want [][]byte) {
+	vAssert(len(got) == len(want), "lines: one callback per newline-terminated line")
+	if len(got) != len(want) {
+		return
+	}
+	for j := range want {
+		vAssert(got[j] == string(want[j]), "lines: callback receives the line without its terminator")
+	}
+}
+
+func verifLimit() int {
 	switch vChoose(3) {
 	case 1:
-		limit = 0 // default limit (64 KiB): never reached here
+		return 0 // default limit (64 KiB): never reached here
 	case 2:
-		limit = vParam("limit", 2)
 		vCover("lines-limited")
+		return vParam("limit", 2)
 	}
+	return -1
+}
+
+// VerifC47Lines: bounded write sequences from the empty processor.
+func VerifC47Lines() {
+	maxWrites := vParam("writes", 2)
+	maxLen := vParam("len", 2)
+	var got []string
+	p := &LineProcessor{Callback: func(l string) { got = append(got, l) }}
+	limit := verifLimit()
 	p.MaximumBufferSize = limit
 
-	// model: complete lines so far and the pending fragment
 	var want [][]byte
 	var pending []byte
-
-	writes := vRange(1, maxWrites)
+	writes := verifRange(1, maxWrites)
 	for i := 0; i < writes; i++ {
 		data, orig := verifData(maxLen)
 		n, err := p.Write(data)
@@ -393,30 +428,64 @@ func VerifC47Lines() {
 			vAssert(n == 0 && err == ErrMaximumBufferSizeExceeded, "lines: oversize write refused")
 		} else {
 			vAssert(n == len(orig) && err == nil, "lines: write accepted in full")
-			for _, b := range orig {
-				if b != '\n' {
-					pending = append(pending, b)
-					continue
-				}
-				line := pending
-				if len(line) > 0 && line[len(line)-1] == '\r' {
-					vCover("lines-cr")
-					line = line[:len(line)-1]
-				}
-				want = append(want, line)
-				pending = nil
-			}
+			var lines [][]byte
+			lines, pending = verifSplit(pending, orig)
+			want = append(want, lines...)
 		}
-		vAssert(len(got) == len(want), "lines: one callback per newline-terminated line")
-		if len(got) != len(want) {
-			return
-		}
-		for j := range want {
-			vAssert(got[j] == string(want[j]), "lines: callback receives the line without its terminator")
-		}
+		verifLinesEq(got, want)
 		vAssert(verifBytesEq(p.buffer, pending), "lines: the incomplete remainder stays buffered")
 	}
 	if len(want) > 1 {
 		vCover("lines-multi")
 	}
+}
+
+// VerifC47LinesStep: ONE Write from an arbitrary processor state.  The state
+// invariant is "the buffered remainder contains no newline" (assumed before,
+// asserted after), so histories of any length follow by induction.
+func VerifC47LinesStep() {
+	maxBuf := vParam("buf", 3)
+	maxLen := vParam("len", 4)
+	var got []string
+	p := &LineProcessor{Callback: func(l string) { got = append(got, l) }}
+	limit := verifLimit()
+	p.MaximumBufferSize = limit
+	nb := verifRange(0, maxBuf)
+	pending := vBytes(nb)
+	for _, b := range pending {
+		vAssume(b != '\n')
+	}
+	// the remainder lives in a buffer with or without spare capacity
+	p.buffer = make([]byte, nb, nb+vChoose(2)*(maxLen+1))
+	copy(p.buffer, pending)
+
+	data, orig := verifData(maxLen)
+	n, err := p.Write(data)
+	vCover("lines-step")
+	vAssert(verifBytesEq(data, orig), "lines: caller's buffer not modified")
+	var want [][]byte
+	if limit > 0 && len(pending)+len(orig) > limit {
+		vCover("lines-overflow")
+		vAssert(n == 0 && err == ErrMaximumBufferSizeExceeded, "lines: oversize write refused")
+	} else {
+		vAssert(n == len(orig) && err == nil, "lines: write accepted in full")
+		want, pending = verifSplit(pending, orig)
+	}
+	verifLinesEq(got, want)
+	if len(want) > 1 {
+		vCover("lines-multi")
+	}
+	vAssert(verifBytesEq(p.buffer, pending), "lines: the incomplete remainder stays buffered")
+	for _, b := range p.buffer {
+		vAssert(b != '\n', "lines: invariant — no newline stays buffered")
+	}
+}
+
+// verifRange is vRange that does not consume a choice for a one-value range
+// (the engine records none there, the native replay runtime would read one).
+func verifRange(lo, hi int) int {
+	if hi <= lo {
+		return lo
+	}
+	return vRange(lo, hi)
 }
